@@ -275,7 +275,9 @@ def finish(ctx, lock_mode=False):
         if not g.failed and not g.undecided_list:
             proved_names.append(f"{g.name}/*")
         for f in g.failed[:10]:
-            report_violation(g.name, str(f["obligation"]), f)
+            # a failed frame obligation names source locations, not an input: no-failing-input-found
+            report_violation(g.name, str(f["obligation"]), f, unreplayed=(kind == "frame"),
+                             solver_output={"checker": "pyvc.frames", "detail": f.get("detail")} if kind == "frame" else None)
 
     evaluations = 0
     nontrivial = 0
